@@ -362,12 +362,41 @@ pub open spec fn io_end(m: ZXMachine, hi_contended: bool, even: bool, t: int) ->
     }
 }
 
+/// C04: `n` single internal T-states, each carrying the same (contended or not) address
+pub open spec fn loop_time(m: ZXMachine, contended: bool, t: int, n: nat) -> int
+    decreases n,
+{
+    if n == 0 { t } else { loop_time(m, contended, if contended { c_then(m, t, 1) } else { t + 1 }, (n - 1) as nat) }
+}
+
 pub proof fn lemma_total_mod(pf: int, f: int, fc: int)
     requires 0 <= fc < f, 0 <= pf,
     ensures (pf * f + fc) % f == fc,
 {
     vstd::arithmetic::div_mod::lemma_fundamental_div_mod_converse(pf * f + fc, f, pf, fc);
 }
+
+/// C08 statement: offset of the display byte holding pixel row `y`, byte column `xb`
+pub open spec fn display_offset(y: int, xb: int) -> int {
+    ((y / 64) * 2048) + ((y % 8) * 256) + (((y / 8) % 8) * 32) + xb
+}
+//@ item rustzx-core/src/zx/constants.rs const CANVAS_HEIGHT
+//@ item rustzx-core/src/zx/constants.rs const CLOCKS_PER_COL
+//@ item rustzx-core/src/zx/constants.rs const CANVAS_WIDTH
+//@ fn rustzx-core/src/utils/screen.rs bitmap_line_addr props C07 C08
+//@ ret r
+//@ sig
+    requires line < 192,
+    ensures r as int == 0x4000 + display_offset(line as int, 0), r & 0x1F == 0, r < 0x5800,
+//@ at 1 /\(0x4000 \|/
+    proof {
+        let l = line;
+        assert(l < 192 ==> ((0x4000usize | (l << 5) & 0x1800 | (l << 8) & 0x0700 | (l << 2) & 0x00E0) as u16) as int
+            == 0x4000 + ((l / 64) * 2048) + ((l % 8) * 256) + (((l / 8) % 8) * 32)) by(bit_vector);
+        assert(l < 192 ==> ((0x4000usize | (l << 5) & 0x1800 | (l << 8) & 0x0700 | (l << 2) & 0x00E0) as u16) & 0x1F == 0) by(bit_vector);
+        assert(l < 192 ==> ((0x4000usize | (l << 5) & 0x1800 | (l << 8) & 0x0700 | (l << 2) & 0x00E0) as u16) < 0x5800) by(bit_vector);
+    }
+//@ end
 
 // ======================================================================
 // ZXController
@@ -733,6 +762,76 @@ impl<H: Host> ZXController<H> {
                 && self.paging_enabled == o.paging_enabled && self.screen_bank == o.screen_bank
         &&& ext ==> true
     }
+
+    /// C07: is the ULA fetching picture data at in-frame T-state `t`, and which (row, col, attr?)
+    pub open spec fn fb_origin(m: ZXMachine) -> int { t0(m) + 3 }
+    pub open spec fn fb_fetching(m: ZXMachine, t: int) -> bool {
+        &&& t >= Self::fb_origin(m)
+        &&& (t - Self::fb_origin(m)) / tline(m) < 192
+        &&& (t - Self::fb_origin(m)) % tline(m) < 128
+        &&& ((t - Self::fb_origin(m)) % tline(m)) % 8 < 4
+    }
+    pub open spec fn fb_addr(m: ZXMachine, t: int) -> int {
+        let row = (t - Self::fb_origin(m)) / tline(m);
+        let c = (t - Self::fb_origin(m)) % tline(m);
+        let col = (c / 8) * 2 + (c % 8) / 2;
+        if c % 2 == 0 { 0x4000 + display_offset(row, col) } else { 0x5800 + (row / 8) * 32 + col }
+    }
+
+//@ fn rustzx-core/src/zx/controller.rs impl <H:Host>ZXController<H>::floating_bus_value props C07
+//@ ret r
+//@ sig
+        requires self.inv(),
+        ensures
+            // 0xFF whenever the ULA is not fetching picture data
+            !Self::fb_fetching(self.machine, self.frame_clocks as int) ==> r == 0xFF,
+            // otherwise the display / attribute byte being fetched
+            Self::fb_fetching(self.machine, self.frame_clocks as int) ==>
+                0x4000 <= Self::fb_addr(self.machine, self.frame_clocks as int) < 0x5B00
+                && r == self.memory.peek(Self::fb_addr(self.machine, self.frame_clocks as int) as u16),
+//@ at 1 /if row < CANVAS_HEIGHT/
+        proof { assert(((clocks & 0x04) == 0) <==> (clocks % 8 < 4)) by(bit_vector); }
+//@ end
+
+//@ fn rustzx-z80/src/bus.rs trait Z80Bus::wait_loop props C04
+//@ sig
+        requires old(self).inv(), old(self).room(2 * clk as int), clk <= 16,
+        ensures final(self).inv(), final(self).same_core(old(self)),
+            final(self).total() == loop_time(old(self).machine, old(self).contended(addr), old(self).total(), clk as nat),
+            final(self).passed_frames as int <= old(self).passed_frames as int + 2 * clk as int,
+//@ loop 0 iter it
+            invariant
+                self.inv(), self.same_core(old(self)), clk <= 16,
+                self.passed_frames as int <= old(self).passed_frames as int + 2 * it.index@ as int,
+                old(self).room(2 * clk as int),
+                loop_time(old(self).machine, old(self).contended(addr), self.total(), (clk - it.index@) as nat)
+                    == loop_time(old(self).machine, old(self).contended(addr), old(self).total(), clk as nat),
+//@ end
+
+//@ fn rustzx-z80/src/bus.rs trait Z80Bus::read props C04 C06
+//@ ret r
+//@ sig
+        requires old(self).inv(), old(self).room(2), clk <= 16,
+        ensures final(self).inv(), final(self).same_core(old(self)),
+            r == old(self).memory.peek(addr),
+            final(self).total() == (if old(self).contended(addr) {
+                    c_then(old(self).machine, old(self).total(), clk as int)
+                } else { old(self).total() + clk as int }),
+//@ end
+
+//@ fn rustzx-z80/src/bus.rs trait Z80Bus::write props C04 C06
+//@ sig
+        requires old(self).inv(), old(self).room(2), clk <= 16,
+        ensures final(self).inv(),
+            final(self).memory.map == old(self).memory.map,
+            final(self).memory.rom@ == old(self).memory.rom@,
+            forall|b: u16| #[trigger] final(self).memory.peek(b) == (
+                if old(self).memory.is_ram(addr) && old(self).memory.cell(b) == old(self).memory.cell(addr) { value }
+                else { old(self).memory.peek(b) }),
+            final(self).total() == (if old(self).contended(addr) {
+                    c_then(old(self).machine, old(self).total(), clk as int)
+                } else { old(self).total() + clk as int }),
+//@ end
 
     pub open spec fn same_but_mixer(&self, o: &Self) -> bool {
         &&& self.machine == o.machine && self.memory == o.memory && self.kempston == o.kempston
